@@ -67,7 +67,7 @@ def cases(tier, seed):
             for v in VARIANTS:
                 out.append({'seed': seed, 'idx': n, 'hashseed': n % 7, 'mode': 'exhaustive', 'menu': 'medium', 'cfg': list(cfg), 'variant': v})
                 n += 1
-        for rep in range(3):
+        for rep in range(8):
             for cfg in large:
                 for v in VARIANTS:
                     out.append({'seed': seed, 'idx': n, 'hashseed': n % 7, 'mode': 'history', 'menu': 'large', 'cfg': list(cfg), 'variant': v})
